@@ -1,6 +1,6 @@
 SPECIFICATION Spec
 CONSTANT N = 3
-CONSTANT Variant = "fixed"
+CONSTANT Variant = "emit"
 CONSTANT MaxRunes = 7
 CONSTANT Kinds = {97, 10, 233, 8364}
 INVARIANT Emit
